@@ -101,8 +101,10 @@ class Class(Expression):
                 _closure, _ParseFunction = Code('_closure'), Code('_ParseFunction')
                 args = tuple(Code(x) for x in self.params)
                 out += _closure << _ParseFunction(parse_func, args, {})
+                # The context is the module's own, not a parameter of the
+                # returned parse function.
                 out.RETURN(Code(
-                    f'lambda {ctx}text, pos=0, fullparse=True:'
+                    'lambda text, pos=0, fullparse=True:'
                     f' _run({ctx}text, pos, _closure, fullparse)'
                 ))
         else:
